@@ -2,6 +2,7 @@ package main
 
 import (
 	"bytes"
+	"sort"
 	"context"
 	"encoding/json"
 	"fmt"
@@ -179,6 +180,7 @@ func runReplayTemplate(e *Engine, ct *FuncContract, r *OblResult, rf *ReplayFile
 	goVals := map[string]string{}
 	for k, v := range rf.Model {
 		goVals[strings.TrimPrefix(k, "param ")] = smtToGo(v)
+		goVals[strings.TrimPrefix(k, "ret ")] = smtToGo(v)
 	}
 	funcs := template.FuncMap{
 		"val": func(name string) string {
@@ -273,7 +275,118 @@ func cmdReplay(args []string) int {
 	return 0
 }
 
+// ---------------------------------------------------------------------------------------
+// self-test corpus: deliberately broken (must-fail) and harmless variants of /repo files,
+// applied in memory through packages.Config.Overlay.
+
+type Mutant struct {
+	ID       string `json:"id"`
+	Property string `json:"property"`
+	Kind     string `json:"kind"` // must-fail | harmless
+	File     string `json:"file"` // relative to the repository root
+	Replace  []struct {
+		Old string `json:"old"`
+		New string `json:"new"`
+	} `json:"replace"`
+	Expect []string `json:"expect"` // obligation groups of which at least one must fail
+	Note   string   `json:"note"`
+}
+
 func runSelftest(args []string) int {
-	fmt.Println("selftest: see /verif/selftest/run.sh")
+	dir := filepath.Join(verifDir(), "selftest", "mutants")
+	files, _ := filepath.Glob(filepath.Join(dir, "*.json"))
+	sort.Strings(files)
+	only := map[string]bool{}
+	for _, a := range args {
+		only[a] = true
+	}
+	failed := 0
+	ran := 0
+	for _, f := range files {
+		b, err := os.ReadFile(f)
+		if err != nil {
+			continue
+		}
+		var ms []Mutant
+		if err := json.Unmarshal(b, &ms); err != nil {
+			fmt.Printf("selftest: %s: %v\n", f, err)
+			failed++
+			continue
+		}
+		for _, m := range ms {
+			if len(only) > 0 && !only[m.Property] && !only[m.ID] {
+				continue
+			}
+			ran++
+			path := filepath.Join(repoDir(), m.File)
+			src, err := os.ReadFile(path)
+			if err != nil {
+				fmt.Printf("selftest: %s: %v\n", m.ID, err)
+				failed++
+				continue
+			}
+			text := string(src)
+			ok := true
+			for _, r := range m.Replace {
+				if !strings.Contains(text, r.Old) {
+					fmt.Printf("selftest: %s: pattern not found in %s: %q\n", m.ID, m.File, r.Old)
+					ok = false
+					break
+				}
+				text = strings.Replace(text, r.Old, r.New, 1)
+			}
+			if !ok {
+				failed++
+				continue
+			}
+			e, err := LoadEngine(repoDir(), map[string][]byte{path: []byte(text)}, filepath.Join(verifDir(), "contracts", "lib"))
+			if err != nil {
+				fmt.Printf("selftest: %s: mutant does not load: %v\n", m.ID, err)
+				failed++
+				continue
+			}
+			out := runProperty(e, m.Property, "quick", 0)
+			notDischarged := map[string]string{}
+			vd := judge(out, "quick", false)
+			for _, r := range vd.Violations {
+				notDischarged[baseName(r.Name)] = r.Status
+			}
+
+			var names []string
+			for n, s := range notDischarged {
+				names = append(names, n+"="+s)
+			}
+			sort.Strings(names)
+			switch m.Kind {
+			case "harmless":
+				if len(notDischarged) > 0 || len(out.Errors) > 0 {
+					fmt.Printf("selftest: FAIL %s (harmless variant raised: %v %v)\n", m.ID, names, out.Errors)
+					failed++
+				} else {
+					fmt.Printf("selftest: ok   %s (harmless, no alarm)\n", m.ID)
+				}
+			default:
+				hit := false
+				for _, ex := range m.Expect {
+					if _, ok := notDischarged[ex]; ok {
+						hit = true
+					}
+				}
+				if len(m.Expect) == 0 && len(notDischarged) > 0 {
+					hit = true
+				}
+				if hit {
+					fmt.Printf("selftest: ok   %s caught by %v\n", m.ID, names)
+				} else {
+					fmt.Printf("selftest: FAIL %s not caught (failing: %v, expected one of %v, errors %v)\n", m.ID, names, m.Expect, out.Errors)
+					failed++
+				}
+			}
+		}
+	}
+	fmt.Printf("selftest: %d mutants, %d failures\n", ran, failed)
+	if failed > 0 {
+		return 1
+	}
 	return 0
 }
